@@ -288,6 +288,7 @@ func (c *Controller) notifySubscribers(r record.Record) {
 			select {
 			case sub.Feed <- r:
 				verifEvent("notify:sent", sub, r)
+				verifEvent("db:sub-fed", sub)
 			default:
 				verifEvent("notify:full", sub, r)
 			}
